@@ -116,7 +116,7 @@ func runFxStack(t *testing.T, w *vt.Writer, si int, sc []vt.M) {
 	}()
 	fxRunClocked(func() {
 		c, pre, vsws := confOf(conf)
-		c.slots = 8
+		c.slots = 12
 		sys := newFxSys(t, w, c, pre, vsws)
 		rec := &fxRec{s: sys}
 		for i := 1; i <= c.slots; i++ {
